@@ -10,4 +10,8 @@ func regLazy(name string, fn func() []byte) { firstop.Reg(name, fn) }
 
 func firstGenChild() { firstop.Child(*which) }
 
+func firstGenConcChild() { firstop.ChildConcurrent(*which, 16) }
+
+func firstGenConc(c *mon.Ctx) { firstop.Parent(c, nil, "firstgenconcop") }
+
 func firstGen(c *mon.Ctx, only func(name string) bool) { firstop.Parent(c, only, "firstgenop") }
